@@ -146,7 +146,10 @@ def _run(case, ctx, d, which):
         if spec.notes.get('cluster_probes'):
             np.save(os.path.join(src, 'cluster_probes.npy'), np.zeros(
                 int(spec.clusters.max()) + 1 if spec.curated else spec.n_templates, dtype=np.int32))
-    out = os.path.join(d, 'alf')
+    from pathlib import Path
+    out = os.path.join(d, ['alf', 'alf out (é)', 'alf'][case['seed'][-1] % 3])
+    if case['seed'][-1] % 2:
+        out = Path(out)
     curated = spec.curated
     mm_empty = len(set(range(int(spec.clusters.max()) + 1)) - set(spec.clusters.tolist())) > 0
     if which == 'C13':
@@ -256,6 +259,7 @@ def _oracle_c13(ctx, desc, f0, spec, src, out, m, m2, label, before, after, audi
     ns, nt, nc = spec.n_spikes, spec.n_templates, spec.n_channels
     ncl = int(spec.clusters.max()) + 1 if spec.curated else nt
     counts = {'spikes': ns, 'clusters': ncl, 'templates': nt, 'channels': nc}
+    out = str(out)
     table, bad = alf_files(out, label)
     for b in bad:
         V('label_missing', 'file %s does not carry the label %r before its extension' % (b, label), label=bool(label))
